@@ -1,14 +1,61 @@
-import Crusta.Proofs.Deciders
+import Crusta.Proofs.Iso
 
-/-! # C11 — statuses depend only on the attack graph (property theorems, spec level) -/
+/-!
+# C11 — statuses are invariant under presentation and mutually consistent (property theorems)
+
+Spec-level theorems, for all frameworks (no bound on size): the textbook semantics — which the
+judge of C01–C04 is proved to implement — depend only on the attack graph, and satisfy the
+cross-semantics relations the property lists.  The metamorphic runs check that the real solvers'
+answers on 20–300 arguments obey the same relations.
+-/
 
 namespace Crusta.C11
 open Crusta
+
+/-- reordering or repeating attack declarations changes no extension of any of the 7 semantics -/
+theorem attack_lines_irrelevant (σ : Sem) {f g : AF} (h : f.SameGraph g) (S : ASet) :
+    σ.Ext f S ↔ σ.Ext g S := ext_attack_set σ h S
+
+/-- renaming / reordering arguments: extensions are mapped to extensions, for all 7 semantics -/
+theorem renaming_invariant {af : AF} (ρ : Renaming af.n) (σ : Sem) (S : ASet) :
+    σ.Ext (af.rename ρ.f) (imageSet S ρ.g) ↔ σ.Ext af S := ext_rename ρ σ S
+
+/-- hence credulous and skeptical statuses are invariant under renaming -/
+theorem status_renaming_invariant {af : AF} (ρ : Renaming af.n) (σ : Sem) (a : Nat) :
+    ((∃ S, σ.Ext af S ∧ S a = true) ↔ (∃ S', σ.Ext (af.rename ρ.f) S' ∧ S' (ρ.f a) = true)) ∧
+    ((∀ S, σ.Ext af S → S a = true) ↔ (∀ S', σ.Ext (af.rename ρ.f) S' → S' (ρ.f a) = true)) :=
+  status_rename ρ σ a
 
 /-- skeptical acceptance implies credulous acceptance whenever an extension exists -/
 theorem skeptical_implies_credulous (σ : Sem) (af : AF) (a : Nat)
     (hex : ∃ S, σ.Ext af S) (hs : ∀ S, σ.Ext af S → S a = true) : ∃ S, σ.Ext af S ∧ S a = true := by
   obtain ⟨S, hS⟩ := hex
   exact ⟨S, hS, hs S hS⟩
+
+/-- GR within every PR extension; ID within every PR extension; PR extensions are complete -/
+theorem gr_id_within_pr {af : AF} {G I P : ASet} (hP : Preferred af P) :
+    (Grounded af G → SubsetS G P) ∧ (Ideal af I → SubsetS I P) ∧ Complete af P :=
+  ⟨fun hG => grounded_sub_preferred hG hP, fun hI => ideal_sub_preferred hI hP, preferred_complete hP⟩
+
+/-- a credulously PR-accepted argument is credulously CO-accepted (the CLI answers DC-PR through
+the complete solver; the converse direction is the existence of a preferred superset) -/
+theorem dc_pr_implies_dc_co {af : AF} {a : Nat} (h : ∃ S, Preferred af S ∧ S a = true) :
+    ∃ S, Complete af S ∧ S a = true := cred_pr_imp_cred_co h
+
+/-- ST within PR, CO, SST and STG -/
+theorem st_within {af : AF} (hwf : af.WF) {S : ASet} (h : Stable af S) :
+    Preferred af S ∧ Complete af S ∧ SemiStable af S ∧ Stage af S :=
+  ⟨stable_preferred hwf h, stable_complete hwf h, stable_semistable hwf h, stable_stage hwf h⟩
+
+/-- ST, SST and STG coincide whenever a stable extension exists -/
+theorem st_sst_stg_coincide {af : AF} (hwf : af.WF) {E : ASet} (hE : Stable af E) (S : ASet) :
+    (SemiStable af S ↔ Stable af S) ∧ (Stage af S ↔ Stable af S) := Crusta.st_sst_stg_coincide hwf hE S
+
+/-- non-vacuity: a renaming of a 3-argument framework (swap 0 and 2) -/
+example : ∃ ρ : Renaming 3, ρ.f 0 = 2 :=
+  ⟨⟨fun a => if a = 0 then 2 else if a = 2 then 0 else a, fun a => if a = 0 then 2 else if a = 2 then 0 else a,
+    by intro a; by_cases h0 : a = 0 <;> by_cases h2 : a = 2 <;> simp_all,
+    by intro a; by_cases h0 : a = 0 <;> by_cases h2 : a = 2 <;> simp_all,
+    by intro a; by_cases h0 : a = 0 <;> by_cases h2 : a = 2 <;> simp_all <;> omega⟩, rfl⟩
 
 end Crusta.C11
